@@ -149,10 +149,15 @@ class BehavioralRTLIRToVVisitorL2( BehavioralRTLIRToVVisitorL1 ):
       body.extend( s.visit( stmt ) )
     make_indent( body, 1 )
 
+    # The loop variable is unsigned: when a descending loop steps below zero
+    # it wraps around to a large value that is still greater than `end`.
+    # Such a value is also greater than `start`, which ends the loop.
+    wrap_guard = f' && {loop_var} <= {start}' if node.step._value < 0 else ''
+
     for_begin = \
-      'for ( int unsigned {v} = {s}; {v} {comp} {t}; {v} {inc}= {stp} ){begin}'.format(
+      'for ( int unsigned {v} = {s}; {v} {comp} {t}{guard}; {v} {inc}= {stp} ){begin}'.format(
       v = loop_var, s = start, t = end, stp = step_abs,
-      comp = cmp_op, inc = inc_op, begin = begin
+      comp = cmp_op, inc = inc_op, begin = begin, guard = wrap_guard
     )
 
     # Assemble for statement
